@@ -143,13 +143,14 @@ theorem useEnter_extends (cfg : Cfg K) (vals v : Vals K) (e : useEnter cfg vals 
         | exact ⟨[], (List.append_nil _).symm⟩
         | exact ⟨_, rfl⟩)
 
-theorem compileVals_extends (styles : Dict) (f : Frame K) (tag : String) (attrs : List (String × String)) :
-    Extends f.vals (compileVals styles f tag attrs) := by
-  unfold compileVals
+theorem compileVals_extends (cfg : Cfg K) (styles : Dict) (f : Frame K) (tag : String) (attrs : List (String × String)) :
+    Extends f.vals (compileVals cfg styles f tag attrs) := by
+  unfold compileVals ownTf
   simp only []
-  split
-  · exact ⟨_, rfl⟩
-  · exact ⟨[], (List.append_nil _).symm⟩
+  generalize validAttrs cfg (compileAttrs styles f.vals.d tag attrs) = a
+  cases Dict.get a "transform" with
+  | some t => exact ⟨_, rfl⟩
+  | none => exact ⟨[], (List.append_nil _).symm⟩
 
 theorem dispatch_extends (cfg : Cfg K) (f : Frame K) (vals : Vals K) (tag : String) :
     Extends vals (dispatch cfg f vals tag).1.vals ∧
@@ -172,8 +173,8 @@ theorem C03_element_extends_transform (cfg : Cfg K) (styles : Dict) (f : Frame K
   unfold enter
   split
   · exact ⟨Extends.refl _, by simp⟩
-  · have h1 := compileVals_extends styles f tag attrs
-    have h2 := dispatch_extends cfg f (compileVals styles f tag attrs) tag
+  · have h1 := compileVals_extends cfg styles f tag attrs
+    have h2 := dispatch_extends cfg f (compileVals cfg styles f tag attrs) tag
     exact ⟨h1.trans h2.1, fun r hr => by rw [h2.2 r hr]; exact h1⟩
 
 mutual
